@@ -21,6 +21,10 @@ Proof.
   - intros H. destruct (IH H) as (k' & Hin & Hk). exists k'. split; [now right|assumption].
 Qed.
 
+(* the dispatch of DecodeMetaSR: an entry found by pre_lookup is an entry of pre_table *)
+Lemma pre_lookup_some h r x : pre_lookup h r = Some x -> lookup (h_name h) pre_table = Some x.
+Proof. unfold pre_lookup. destruct (meta_qt h r); [discriminate|trivial]. Qed.
+
 (* ---------------------------------------------------------------- header *)
 Lemma dec_hdr_spec bs h r : bytes_ok bs = true -> dec_hdr bs = Ok (h, r) ->
   bytes_ok r = true /\ h_len h <= h_size h /\
@@ -156,8 +160,9 @@ Proof.
     + unfold hdr_exact in Hh. apply andb_true_iff in Hh. destruct Hh as [H1 H2]. apply N.eqb_eq in H1, H2.
       destruct Hshape as [[_ ->]|[Hl _]]; [|lia]. rewrite H2.
       eexists; split; [reflexivity|]. split; [|assumption]. now rewrite <- app_assoc.
-  - destruct (lookup (h_name h) pre_table) as [[d lk]|] eqn:Epre.
-    { (* prefixed box: stsd, dref, sample entries *)
+  - destruct (pre_lookup h r) as [[d lk]|] eqn:Epre0.
+    { (* prefixed box: stsd, dref, sample entries, ISO meta *)
+      pose proof (pre_lookup_some _ _ _ Epre0) as Epre.
       destruct (d h r) as [[[l rsv] r1]| | |] eqn:Ed; try discriminate.
       destruct (lookup_in _ _ _ Epre) as (k & Hin & Hk).
       pose proof (proj1 (Forall_forall _ _) pre_table_ok _ Hin) as [Hloss Hname]. cbn [fst snd] in *.
@@ -185,7 +190,7 @@ Proof.
         injection H as <- <-.
         apply Hgoal; [assumption|]. intros Hokr1 Hcs.
         destruct (IHe _ _ _ _ _ Hokr1 Ec Hcs) as (enc & Henc & Hr1 & Hokr'). now exists enc. }
-    destruct (is_cont (h_name h)).
+    destruct (cont_like h r).
     + (* container *)
       destruct (decode_children f (h_size h - 8) 0 0 r) as [[cs r']| | |] eqn:Ec; try discriminate.
       destruct (bytes_eqb (h_name h) n_edts && negb (edts_ok cs)); [discriminate|].
